@@ -55,6 +55,11 @@ def invalidations(unit, env, val, path=()):
                 if t.kind == "int":
                     yield (f"{name}=limit", here, INT_LIMITS[t.name])
                     yield (f"{name}=limit+1", here, INT_LIMITS[t.name] + 1)
+                    for other, lim in INT_LIMITS.items():  # the limits of the wider types, and far beyond
+                        if lim > INT_LIMITS[t.name] + 1:
+                            yield (f"{name}=limit of {other}", here, lim)
+                    yield (f"{name}=2**32", here, 2**32)
+                    yield (f"{name}=253**4+253**3-1", here, 253**4 + 253**3 - 1)
                 elif t.kind == "enum":
                     yield (f"{name}=ordinal at limit of {t.under}", here, INT_LIMITS[t.under])
                 elif t.kind == "string" and ref is not None:
